@@ -36,6 +36,9 @@ int64_t carquet_column_read_batch(
     int16_t* def_levels,
     int16_t* rep_levels) {
 
+    /* BYTE_ARRAY values returned by the previous call are no longer needed */
+    carquet_column_release_retired_pages(reader);
+
     /* max_values < 0 is invalid; max_values = 0 is a "peek" to trigger page loading */
     if (max_values < 0) {
         return -1;
